@@ -35,7 +35,7 @@ RULE = ("write cases = (writer in {AntismashResults.write_to_file, dump_records}
 ASSUMPTIONS = [
     "faults are injected through ModuleResults subclasses supplied by the harness (to_json raising TypeError/ValueError/KeyError, returning a "
     "set, returning an object whose own to_json raises) and through a results entry that is not a ModuleResults at all",
-    "hidden (dot) directory entries are outside the alphabet: the directory check uses glob('*') semantics",
+    "hidden (dot) directory entries are in the alphabet; that they are not seen is open finding C20-F1",
     "the full pipeline cannot run here (HMM data emptied); the ordering claim is covered at the level of the two functions it calls",
 ]
 BOUNDS = {"quick": "1-2 records x 0-2 modules", "thorough": "1-4 records x 0-4 modules"}
@@ -173,7 +173,7 @@ def check_write(writer, n_records, n_modules, fault, existing):
 
 # ---------------------------------------------------------------- directory part
 
-DIR_MENU = ["input/", "input", "run.log", "other.log", "x.json", "x.region001.gbk", "index.html", "empty/"]
+DIR_MENU = ["input/", "input", "run.log", "other.log", "x.json", "x.region001.gbk", "index.html", "empty/", ".hidden"]
 
 
 def _listing(root):
